@@ -513,6 +513,24 @@ func runC16(r *mc.Run) {
 					return o
 				}},
 			}
+			// one option at a time holding a PREFIX of the right value (a half, three quarters, all but 16 bytes of it) in
+			// a buffer that continues with the rest of the value and further bytes: room to "complete" it in place
+			for _, f := range optFields {
+				for _, k := range []int{f.len / 2, 3 * f.len / 4, f.len - 16} {
+					if k <= 0 || k >= f.len {
+						continue
+					}
+					f, k := f, k
+					voShapes = append(voShapes, voShape{fmt.Sprintf("%s-prefix-of-%d-bytes-with-room-behind", f.name, k), func() *validate.Options {
+						o := &validate.Options{}
+						buf := make([]byte, 0, f.len+32)
+						buf = append(buf, raw0[f.off:f.off+f.len]...)
+						buf = append(buf, bytes.Repeat([]byte{0xa5}, 32)...)
+						f.set(o, buf[:k])
+						return o
+					}})
+				}
+			}
 			copyOpts := func(o *validate.Options) *validate.Options {
 				cb := func(b []byte) []byte {
 					if b == nil {
